@@ -393,6 +393,18 @@ pub fn run(ctx: &Ctx) -> i32 {
                 observe(&mut acc, r, &[c.as_str()], "exhaustive_pairs");
             }
         }
+        // very long received strings: distances around 256 and 512 (a distance kept in a narrow integer wraps)
+        if shard == 0 {
+            for pad in (236usize..=276).chain(500..=530) {
+                let near = format!("searchable{}", "x".repeat(pad.saturating_sub(2)));
+                let received = format!("searchable{}", "x".repeat(pad));
+                let far = "searchable".to_string();
+                let other = "limit".to_string();
+                observe(&mut acc, &received, &[far.as_str(), other.as_str()], "long_strings");
+                observe(&mut acc, &received, &[far.as_str(), near.as_str()], "long_strings");
+                observe(&mut acc, &far, &[received.as_str()], "long_strings");
+            }
+        }
         // deterministic compound shapes at every budget: transpose + insert between, inside a longer word
         if shard == 0 {
             for bytes in [4usize, 6, 8, 10, 12, 13, 17, 18, 24, 25, 30] {
